@@ -7,7 +7,7 @@
    "parse (present p f) = denote f for every well-formed feed f and presentation p" is not assembled in Coq - it is what the
    engine's denote oracle decides on every generated feed.  (DESIGN §8 C01, fallback rule) *)
 From Coq Require Import List Ascii String.
-From GV Require Import Base.Prelude Base.Dec Model.Csv Proofs.CsvProofs Model.Realtime Model.Static Proofs.RealtimeProofs Proofs.StaticProofs Proofs.PresentProofs Gen.Enums.
+From GV Require Import Base.Prelude Base.Dec Model.Csv Proofs.CsvProofs Model.Realtime Model.Static Proofs.RealtimeProofs Proofs.StaticProofs Proofs.PresentProofs Gen.Enums Proofs.RowsProofs.
 From Coq Require Import Permutation.
 
 (* --- CSV layer: any quoting style, CRLF, byte-order mark, final newline --- *)
@@ -103,6 +103,38 @@ Theorem C01_calendar_dates_presentation : forall di h h' rows rows', same_table 
   parse_calendar_dates di zone m h rows = parse_calendar_dates di zone m h' rows'.
 Proof. exact calendar_dates_presentation. Qed.
 Print Assumptions C01_calendar_dates_presentation.
+(* ---- "exactly one entity per data row ... nothing is invented and nothing is lost", at file level, for the loops that build one
+   entity per accepted row: the result holds exactly the entities of the accepted rows (membership both ways), as many as there
+   are accepted rows, and - when every row is accepted, as in a well-formed feed - one per row, in file order; the entity of a
+   row carries that row's own values ---- *)
+Theorem C01_routes_exactly_the_valid_rows : forall ags hdr rows, has_columns hdr ["route_id"; "route_type"] = true ->
+  (forall r, In r (parse_routes ags hdr rows) <-> exists cells, In cells rows /\ route_row ags (view hdr cells) = Some r) /\
+  List.length (parse_routes ags hdr rows) = List.length (filter (fun cells => is_some (route_row ags (view hdr cells))) rows) /\
+  (Forall (fun cells => route_row ags (view hdr cells) <> None) rows ->
+     map Some (parse_routes ags hdr rows) = map (fun cells => route_row ags (view hdr cells)) rows).
+Proof. exact routes_exactly_the_valid_rows. Qed.
+Print Assumptions C01_routes_exactly_the_valid_rows.
+Theorem C01_route_row_transcribed : forall ags v r, route_row ags v = Some r ->
+  r_id r = fst (required v "route_id") /\ snd (required v "route_id") = false /\ snd (required v "route_type") = false /\
+  r_color r = read_or v "route_color" "FFFFFF" /\ r_text_color r = read_or v "route_text_color" "000000" /\
+  r_short r = optional v "route_short_name" /\ r_long r = optional v "route_long_name" /\ r_desc r = optional v "route_desc".
+Proof. exact route_row_transcribed. Qed.
+Print Assumptions C01_route_row_transcribed.
+Theorem C01_transfers_exactly_the_valid_rows : forall stops hdr rows, has_columns hdr ["from_stop_id"; "to_stop_id"] = true ->
+  (forall t, In t (parse_transfers stops hdr rows) <-> exists cells, In cells rows /\ transfer_row stops (view hdr cells) = Some t) /\
+  List.length (parse_transfers stops hdr rows) = List.length (filter (fun cells => is_some (transfer_row stops (view hdr cells))) rows) /\
+  (Forall (fun cells => transfer_row stops (view hdr cells) <> None) rows ->
+     map Some (parse_transfers stops hdr rows) = map (fun cells => transfer_row stops (view hdr cells)) rows).
+Proof. exact transfers_exactly_the_valid_rows. Qed.
+Print Assumptions C01_transfers_exactly_the_valid_rows.
+Theorem C01_trips_exactly_the_valid_rows : forall ro sv sh hdr rows, has_columns hdr ["route_id"; "service_id"; "trip_id"] = true ->
+  (forall t, In t (parse_trips ro sv sh hdr rows) <-> exists cells, In cells rows /\ trip_row ro sv sh (view hdr cells) = Some t) /\
+  List.length (parse_trips ro sv sh hdr rows) = List.length (filter (fun cells => is_some (trip_row ro sv sh (view hdr cells))) rows) /\
+  (Forall (fun cells => trip_row ro sv sh (view hdr cells) <> None) rows ->
+     map Some (parse_trips ro sv sh hdr rows) = map (fun cells => trip_row ro sv sh (view hdr cells)) rows).
+Proof. exact trips_exactly_the_valid_rows. Qed.
+Print Assumptions C01_trips_exactly_the_valid_rows.
+
 Example C01_example : read_all_s "a,b
 ""x,""""y"",
 " = Some [["a"; "b"]; ["x,""y"; ""]].
